@@ -2,7 +2,7 @@
    iteration, hand-written, parametric) tied to the formulas GENERATED from the source (Gen/Links, Gen/Dists, Gen/Stats). *)
 From Coq Require Import List Reals Lra.
 From Coquelicot Require Import Coquelicot.
-From PG Require Import Base.Ops Base.Vec Model.Pirls Proofs.VecR Proofs.C04 Proofs.C01 Proofs.C01Grad Gen.Links Gen.Dists Gen.Stats.
+From PG Require Import Base.Ops Base.Vec Model.Pirls Proofs.VecR Proofs.C04 Proofs.C04b Proofs.C01 Proofs.C01Grad Proofs.C01Inst Gen.Links Gen.Dists Gen.Stats.
 Import ListNotations.
 Open Scope R_scope.
 
@@ -72,3 +72,42 @@ Theorem C01_normal_identity_closed_form : forall m B Ptot (ob : list (R * R * R)
   map (fun t => zpd Rfops LIdentity 1 (snd t) (snd (fst t)) (snd t)) ob = map (fun t => snd (fst t)) ob.
 Proof. exact normal_identity_closed_form. Qed.
 Print Assumptions C01_normal_identity_closed_form.
+
+(* The chain closed for the five model classes, with the deviances and links GENERATED from the source: a fixed point of the
+   PIRLS step (working weights and pseudo data of Model/Pirls.v, proved above to be the generated ones) is a stationary point
+   of  sum_i w_i dev(y_i, ginv(B_i . beta)) + beta' Ptot beta  in every direction v -- all n, m, all valid responses. *)
+Theorem C01_converged_fit_is_stationary_point :
+  (forall sc m B wy P b v,
+     List.Forall (fun r => length r = m) B -> length wy = length B -> square P m -> bisym P m -> length b = m -> length v = m ->
+     is_step Rfops m B (obs_w2 LIdentity DNormal None 1 (obs_of (Gen_IdentityLink_mu 1) B wy b)) P
+             (vaddR (matvecR B b) (obs_rr LIdentity 1 (obs_of (Gen_IdentityLink_mu 1) B wy b))) b ->
+     is_derive (pendev (Gen_NormalDist_deviance0 false sc 1) (Gen_IdentityLink_mu 1) B wy P b v) 0 0) /\
+  (forall m B wy P b v,
+     List.Forall (fun r => length r = m) B -> length wy = length B -> square P m -> bisym P m -> length b = m -> length v = m ->
+     List.Forall (fun t => 0 <= snd (snd t)) (combine B wy) ->
+     is_step Rfops m B (obs_w2 LLog DPoisson None 1 (obs_of (Gen_LogLink_mu 1) B wy b)) P
+             (vaddR (matvecR B b) (obs_rr LLog 1 (obs_of (Gen_LogLink_mu 1) B wy b))) b ->
+     is_derive (pendev (Gen_PoissonDist_deviance0 false 1 1) (Gen_LogLink_mu 1) B wy P b v) 0 0) /\
+  (forall L m B wy P b v, 0 < L ->
+     List.Forall (fun r => length r = m) B -> length wy = length B -> square P m -> bisym P m -> length b = m -> length v = m ->
+     List.Forall (fun t => 0 <= snd (snd t) <= L) (combine B wy) ->
+     is_step Rfops m B (obs_w2 LLogit DBinomial None L (obs_of (Gen_LogitLink_mu L) B wy b)) P
+             (vaddR (matvecR B b) (obs_rr LLogit L (obs_of (Gen_LogitLink_mu L) B wy b))) b ->
+     is_derive (pendev (Gen_BinomialDist_deviance0 false 1 L) (Gen_LogitLink_mu L) B wy P b v) 0 0) /\
+  (forall sc m B wy P b v,
+     List.Forall (fun r => length r = m) B -> length wy = length B -> square P m -> bisym P m -> length b = m -> length v = m ->
+     List.Forall (fun t => 0 < snd (snd t)) (combine B wy) ->
+     is_step Rfops m B (obs_w2 LLog DGamma None 1 (obs_of (Gen_LogLink_mu 1) B wy b)) P
+             (vaddR (matvecR B b) (obs_rr LLog 1 (obs_of (Gen_LogLink_mu 1) B wy b))) b ->
+     is_derive (pendev (Gen_GammaDist_deviance0 false sc 1) (Gen_LogLink_mu 1) B wy P b v) 0 0) /\
+  (forall sc m B wy P b v,
+     List.Forall (fun r => length r = m) B -> length wy = length B -> square P m -> bisym P m -> length b = m -> length v = m ->
+     List.Forall (fun t => 0 < snd (snd t)) (combine B wy) ->
+     is_step Rfops m B (obs_w2 LLog DInvGauss None 1 (obs_of (Gen_LogLink_mu 1) B wy b)) P
+             (vaddR (matvecR B b) (obs_rr LLog 1 (obs_of (Gen_LogLink_mu 1) B wy b))) b ->
+     is_derive (pendev (Gen_InvGaussDist_deviance0 false sc 1) (Gen_LogLink_mu 1) B wy P b v) 0 0).
+Proof.
+  exact (conj linear_fixed_point_stationary (conj poisson_fixed_point_stationary (conj logistic_fixed_point_stationary
+        (conj gamma_fixed_point_stationary invgauss_fixed_point_stationary)))).
+Qed.
+Print Assumptions C01_converged_fit_is_stationary_point.
